@@ -241,14 +241,22 @@ def mon_stage_nf(type_def, nf_model, fit, gmin, gmax, g, pin_db, nch, slot_width
     return nf + pad, pad
 
 
-def mon_nf(p, g, pin_db=0.0, nch=88, slot_width=50e9):
-    """average NF (dB) of a loaded amplifier at effective gain g, and the input padding"""
+def mon_nf(p, g, pin_db=0.0, nch=88, slot_width=50e9, eq=None):
+    """average NF (dB) of a loaded amplifier at effective gain g, and the input padding. For a dual-stage type the two
+    stages are read from the stand-alone LIBRARY entries it names when `eq` is given (cascade F = F1 + F2/G1, each stage
+    with ITS OWN gain_min / gain_flatmax / NF model), not from the attributes copied onto the element"""
     if p.type_def == 'dual_stage':
-        g1 = p.preamp_gain_flatmax
-        n1, _ = mon_stage_nf(p.preamp_type_def, p.preamp_nf_model, p.preamp_nf_fit_coeff, p.preamp_gain_min,
-                             p.preamp_gain_flatmax, g1, pin_db, nch, slot_width)
-        n2, _ = mon_stage_nf(p.booster_type_def, p.booster_nf_model, p.booster_nf_fit_coeff, p.booster_gain_min,
-                             p.booster_gain_flatmax, g - g1, pin_db, nch, slot_width)
+        if eq is not None:
+            pre, boost = (eq['Edfa'][n] for n in dual_names(p))
+            s1 = (pre.type_def, pre.nf_model, pre.nf_fit_coeff, pre.gain_min, pre.gain_flatmax)
+            s2 = (boost.type_def, boost.nf_model, boost.nf_fit_coeff, boost.gain_min, boost.gain_flatmax)
+        else:
+            s1 = (p.preamp_type_def, p.preamp_nf_model, p.preamp_nf_fit_coeff, p.preamp_gain_min, p.preamp_gain_flatmax)
+            s2 = (p.booster_type_def, p.booster_nf_model, p.booster_nf_fit_coeff, p.booster_gain_min,
+                  p.booster_gain_flatmax)
+        g1 = s1[4]
+        n1, _ = mon_stage_nf(*s1, g1, pin_db, nch, slot_width)
+        n2, _ = mon_stage_nf(*s2, g - g1, pin_db, nch, slot_width)
         lin = (0.0 if n1 == -math.inf else 10 ** (n1 / 10)) + (0.0 if n2 == -math.inf else 10 ** ((n2 - g1) / 10))
         return (10 * math.log10(lin) if lin > 0 else -math.inf), 0
     return mon_stage_nf(p.type_def, p.nf_model, p.nf_fit_coeff, p.gain_min, p.gain_flatmax, g, pin_db, nch, slot_width)
